@@ -777,6 +777,8 @@ class TraceManager:
         removed = self.refgraph.remove_with_descs(ref)
         for node in removed:
             descs = self.tracegraph.remove_with_descs(node)
+            # The dependents read references too: forget those reads
+            self.refgraph.remove_with_referred(descs)
             for desc in descs:
                 desc[OBJ].on_clear_trace(desc[KEY])
 
